@@ -415,10 +415,15 @@ pub fn run_history_observed(g: u64, steps: &[Step], prune: u64, supply: bool, re
         }
         match p.bundle(ts, s.gt) {
             Produced::Block(bytes) => {
-                let (a, _b) = p.commit(&bytes);
+                let (a, b) = p.commit(&bytes);
+                if matches!(a, Outcome::Done(AddRes::AddedLongest)) && !matches!(b, Outcome::Done(AddRes::AddedLongest)) {
+                    // the twin (same chain, other key) refuses what the producer's node adopted
+                    rep.outcome(&format!("history-cut:block-not-accepted-by-the-twin/prune_after_blocks={}", prune));
+                    return;
+                }
                 if !matches!(a, Outcome::Done(AddRes::AddedLongest)) {
                     // producer disagreement belongs to C07; stop this history
-                    rep.outcome("history-cut:block-not-accepted");
+                    rep.outcome(&format!("history-cut:block-not-accepted/prune_after_blocks={}", prune));
                     if let Outcome::Panicked(m) = &a {
                         let blk = decode_block(&bytes);
                         let nft = blk.transactions.iter().any(|t| t.transaction_type == TransactionType::ATR && t.to.len() == 3);
@@ -533,6 +538,18 @@ pub fn histories(tier: &Tier) -> Vec<(u64, Vec<Step>)> {
 
 pub fn main(tier: Tier, _replay: Option<String>) -> i32 {
     let mut rep = Report::new("C13", tier.clone(), "model_checking");
+    if let Ok(spec) = std::env::var("VERIF_C13_ONE") {
+        // developer aid: VERIF_C13_ONE="g,prune,fee" runs the default history once
+        let v: Vec<u64> = spec.split(',').filter_map(|x| x.trim().parse().ok()).collect();
+        let (g, prune, fee) = (v[0], v[1], v[2]);
+        let steps: Vec<Step> = (0..(2 * g + 5) as usize).map(|i| Step { act: Act::Pay(fee), gt: i % 2 == 1, fork_before: false }).collect();
+        let mut r = rep.child();
+        run_history(g, &steps, prune, &mut r);
+        for (k, v) in r.outcomes.iter() {
+            println!("  {} {}", v, k);
+        }
+        return 0;
+    }
     let hs = histories(&tier);
     rep.bounds = json!({"genesis_periods": if tier.thorough { vec![3, 4, 5] } else { vec![3, 4] }, "length": "2g+5", "fee_levels": [0, 6000], "deviations": "1 everywhere, 2 at g=3 (all g in thorough)", "alphabet": ["Pay", "PayTwo", "Dust", "SpendOldest", "NftCreate", "Empty"]});
     rep.rule = "histories = default payment script with <=2 deviations from a 9-symbol action alphabet, golden ticket every other block; monitor after every accepted block; distinct = histories".into();
@@ -550,9 +567,17 @@ pub fn main(tier: Tier, _replay: Option<String>) -> i32 {
         let base_fee = [0u64, 6_000].into_iter().max_by_key(|f| steps.iter().filter(|s| matches!(&s.act, Act::Pay(x) if x == f)).count()).unwrap();
         let deviations = steps.iter().filter(|s| s.fork_before || !matches!(&s.act, Act::Pay(f) if *f == base_fee)).count();
         if deviations <= 1 {
+            // prune_after_blocks = 2: the expiring block (g + 1 back) has dropped its transactions,
+            // the two blocks whose routers the next block pays have not. With 1 the producer itself
+            // cannot see the router of the block two back (a C07 matter: its own block is refused at
+            // the first payout), so that setting is used where no fees are paid
             r.evaluations += 1;
-            run_history(*g, steps, 1, &mut r);
+            run_history(*g, steps, 2, &mut r);
             r.outcome("history-also-run-with-pruned-memory");
+            if base_fee == 0 {
+                r.evaluations += 1;
+                run_history(*g, steps, 1, &mut r);
+            }
         }
         if i == 7 {
             r.sample(json!({"g": g, "steps": steps.iter().map(|s| format!("{:?}{}", s.act, if s.gt { "+gt" } else { "" })).collect::<Vec<_>>()}));
